@@ -2,7 +2,8 @@ package main
 
 // c12resp: spec -> code replay of KeyResponse_gen records: CheckKeys, ServerKeys.PublicKey, and the real
 // DirectKeyFetcher / PerspectiveKeyFetcher over a scripted KeyClient that returns really signed or
-// mis-signed ServerKeys built with real ed25519 keys.
+// mis-signed ServerKeys built with real ed25519 keys.  The responses are produced as JSON text and decoded
+// the way fclient decodes them; dup.go writes a top-level member a second time into that text.
 
 import (
 	"bytes"
@@ -35,12 +36,43 @@ type OldKey struct {
 	Exp int64  `json:"exp"`
 }
 
+// Dup says that whoever relayed the response wrote one top-level member a second time: which member (M),
+// the smuggled copy "before" or "after" the genuine one (Pos), and what the smuggled copy holds (C);
+// see KeyResponse.tla, "a member written twice".
+type Dup struct {
+	M   string `json:"m"`
+	Pos string `json:"pos"`
+	C   string `json:"c"`
+}
+
 type Resp struct {
 	Name  string   `json:"name"`
 	VU    int64    `json:"vu"`
 	VKeys []VKey   `json:"vkeys"`
 	Old   []OldKey `json:"old"`
 	NSig  string   `json:"nsig"`
+	Dup   Dup      `json:"dup"`
+}
+
+func (r Resp) hasDup() bool { return r.Dup.M != "" && r.Dup.M != "none" }
+
+// Ask is the message a key ring is asked to verify in the end-to-end scenarios: signed by s1 under key
+// ID Kid with key By, to be valid at TS.
+type Ask struct {
+	Kid string `json:"kid"`
+	By  string `json:"by"`
+	TS  int64  `json:"ts"`
+}
+
+// Alt is what the specification derives for one of the things an implementation may do with a response
+// that writes a member twice ("lastwins" | "refuse" | "drop").
+type Alt struct {
+	Pol   string       `json:"pol"`
+	Tab   Table        `json:"tab"`
+	Calls []ClientCall `json:"calls"`
+	All   bool         `json:"all"`
+	Keys  []KidKey     `json:"keys"`
+	Res   string       `json:"res"`
 }
 
 type DirectScript struct {
@@ -95,6 +127,9 @@ type RespRec struct {
 	P        ListScript   `json:"p"`
 	Tab      Table        `json:"tab"`
 	Calls    []ClientCall `json:"calls"`
+	Via      string       `json:"via"`
+	Q        Ask          `json:"q"`
+	Alts     []Alt        `json:"alts"`
 }
 
 func notaryName() string      { return string(serverName("notary")) }
@@ -125,6 +160,8 @@ func (rc *respCtx) ms(h int64) spec.Timestamp {
 	return spec.Timestamp(rc.base + h*hourMS)
 }
 
+func (rc *respCtx) nowAt(h int64) time.Time { return time.UnixMilli(rc.base + h*hourMS) }
+
 func respKeyID(kid, alg string) gmsl.KeyID {
 	if alg != "" && alg != "ed25519" {
 		return gmsl.KeyID("rsa:" + kid)
@@ -133,8 +170,19 @@ func respKeyID(kid, alg string) gmsl.KeyID {
 }
 
 // build realises an abstract response as ServerKeys: really signed where the model says "good",
-// signed with another key where it says "bad".
-func (rc *respCtx) build(r Resp) gmsl.ServerKeys {
+// signed with another key where it says "bad".  A response that does not decode (only one that writes a
+// member twice can fail to) is reported as the error json.Unmarshal gave.
+func (rc *respCtx) build(r Resp) (gmsl.ServerKeys, error) {
+	var sk gmsl.ServerKeys
+	err := json.Unmarshal(rc.wire(r), &sk)
+	if err != nil && !r.hasDup() {
+		panic(err)
+	}
+	return sk, err
+}
+
+// wire is the JSON text of the response as it arrives.
+func (rc *respCtx) wire(r Resp) []byte {
 	name := string(serverName(r.Name))
 	verify := map[string]interface{}{}
 	for _, k := range r.VKeys {
@@ -167,7 +215,7 @@ func (rc *respCtx) build(r Resp) gmsl.ServerKeys {
 		body["tls_fingerprints"] = []interface{}{map[string]string{"sha256": "I2ohBnqpb5m3HldWFwyA10WdjqDksukiKVUdZ690WzM"}}
 	case 2:
 		body["org.example.unknown"] = map[string]interface{}{"expired_ts": 1, "valid_until_ts": 2, "key": "x"}
-		if len(r.Old) == 0 {
+		if len(r.Old) == 0 && !r.hasDup() {
 			delete(body, "old_verify_keys") // absent instead of empty
 		}
 	}
@@ -215,11 +263,10 @@ func (rc *respCtx) build(r Resp) gmsl.ServerKeys {
 	if err != nil {
 		panic(err)
 	}
-	var sk gmsl.ServerKeys
-	if err = json.Unmarshal(msg, &sk); err != nil {
-		panic(err)
+	if r.hasDup() {
+		return rc.smuggle(r, msg)
 	}
-	return sk
+	return msg
 }
 
 // why the specification does not accept a response (canonical reasons)
@@ -272,7 +319,8 @@ func (c *scriptedClient) GetServerKeys(_ context.Context, s spec.ServerName) (gm
 	if !ok || d.Kind != "resp" {
 		return gmsl.ServerKeys{}, errScripted
 	}
-	return c.rc.build(d.R), nil
+	// as fclient.GetServerKeys: a body that does not decode is an error
+	return c.rc.build(d.R)
 }
 
 func (c *scriptedClient) LookupServerKeys(_ context.Context, s spec.ServerName, _ map[gmsl.PublicKeyLookupRequest]spec.Timestamp) ([]gmsl.ServerKeys, error) {
@@ -286,7 +334,10 @@ func (c *scriptedClient) LookupServerKeys(_ context.Context, s spec.ServerName, 
 	}
 	var out []gmsl.ServerKeys
 	for _, r := range l.Rs {
-		out = append(out, c.rc.build(r))
+		// as fclient.LookupServerKeys: an entry that does not decode is left out
+		if sk, err := c.rc.build(r); err == nil {
+			out = append(out, sk)
+		}
 	}
 	return out, nil
 }
@@ -300,7 +351,7 @@ func (rc *respCtx) abstractTable(res map[gmsl.PublicKeyLookupRequest]gmsl.Public
 		}
 		srv := abstractServer(q.ServerName)
 		e := Entry{Key: "?"}
-		for _, n := range []string{"A0", "A1", "A2", "L", "P1", "PX", "R", "imposter"} {
+		for _, n := range []string{"A0", "A1", "A2", "L", "P1", "PX", "R", "X", "imposter"} {
 			if bytes.Equal(keyFor(rc.seed, srv, n).pub, v.Key) {
 				e.Key = n
 			}
@@ -401,9 +452,11 @@ func replayResp(rec *RespRec, seed int64, idx int) hx.Result {
 		return hx.Result{OK: false, Key: "C12/resp/" + rec.Mode + "/" + detail, What: what, Want: want, Got: got}
 	}
 	switch rec.Mode {
+	case "dupcheck", "dupdirect", "duppersp", "dupring":
+		return replayDup(rc, rec)
 	case "check":
-		sk := rc.build(rec.R)
-		now := time.UnixMilli(rc.base + rec.Now*hourMS)
+		sk, _ := rc.build(rec.R)
+		now := rc.nowAt(rec.Now)
 		checks, keys := gmsl.CheckKeys(serverName(rec.Expected), now, sk)
 		got := ChecksRec{Name: checks.MatchingServerName, Future: checks.FutureValidUntilTS, HasEd: checks.HasEd25519Key, All: checks.AllChecksOK}
 		for id, c := range checks.Ed25519Checks {
@@ -442,7 +495,7 @@ func replayResp(rec *RespRec, seed int64, idx int) hx.Result {
 		}
 		return hx.Result{OK: true, NT: fmt.Sprintf("check|%v|%v|%v|%v|%d", got.All, got.Name, got.Future, got.HasEd, len(got.Ed))}
 	case "pubkey":
-		sk := rc.build(rec.R)
+		sk, _ := rc.build(rec.R)
 		k := sk.PublicKey(edKeyID(rec.Kid), rc.ms(rec.TS))
 		got := "-"
 		if k != nil {
